@@ -105,8 +105,13 @@ Proof.
 Qed.
 Lemma R_forin_post lo : forall a a', R a a' -> R (forin_post lo a) (forin_post lo a').
 Proof. intros a a' H. unfold forin_post. apply R_set_end; [reflexivity|]. apply R_mark. exact H. Qed.
-Lemma R_dowhile_tail r p c : forall x x', R x x' -> R (dowhile_tail r p c x) (dowhile_tail r p c x').
-Proof. intros x x' H. unfold dowhile_tail. apply R_visit_cond. destruct r as [e|]; [destruct (is_forced e); [apply R_mark|]|]; exact H. Qed.
+Lemma R_dowhile_test fx prev c : forall x x', R x x' -> R (dowhile_test fx prev c x) (dowhile_test fx prev c x').
+Proof.
+  intros x x' H. unfold dowhile_test. destruct (fixF fx); [|apply R_visit_cond; exact H].
+  apply R_set_end; [apply (R_end _ _ H) | apply R_visit_cond, R_set_end; [reflexivity | exact H]].
+Qed.
+Lemma R_dowhile_tail fx prev r p c : forall x x', R x x' -> R (dowhile_tail fx prev r p c x) (dowhile_tail fx prev r p c x').
+Proof. intros x x' H. unfold dowhile_tail. apply R_dowhile_test. destruct r as [e|]; [destruct (is_forced e); [apply R_mark|]|]; exact H. Qed.
 Lemma R_if_else_end p r1 r2 : forall x x', R x x' -> R (if_else_end p r1 r2 x) (if_else_end p r1 r2 x').
 Proof. intros x x' H. unfold if_else_end. destruct (if_else_mark r1 r2); [apply R_mark | apply R_set_panic]; exact H. Qed.
 Lemma R_switch_tail e p prev : forall x x', R x x' -> R (switch_tail e p prev x) (switch_tail e p prev x').
@@ -288,11 +293,21 @@ Proof.
 Qed.
 
 (* loops *)
+Lemma R_dowhile_tail_cr prev r p c : forall x x', R x x' -> R (dowhile_tail current prev r p c x) (dowhile_tail repaired prev r p c x').
+Proof.
+  intros x x' H. unfold dowhile_tail, dowhile_test. cbn [fixF current repaired].
+  assert (H' : R (match r with Some e => if is_forced e then mark_as_end p e x else x | None => x end)
+                 (match r with Some e => if is_forced e then mark_as_end p e x' else x' | None => x' end))
+    by (destruct r as [e|]; [destruct (is_forced e); [apply R_mark|]|]; exact H).
+  apply R_set_end; [apply (R_end _ _ H') | apply R_visit_cond, R_set_end; [reflexivity | exact H']].
+Qed.
+
 Lemma cg1_while c lo g g' : cg1 g g' -> cg1 (visit_whileG current c lo g) (visit_whileG repaired c lo g').
 Proof.
-  intros H x x' HR. unfold visit_whileG. destruct (H _ _ (R_child_enter KLoop _ _ HR)) as [A [B C]].
-  destruct (g (child_enter KLoop x)) as [[a r] lg]. destruct (g' (child_enter KLoop x')) as [[a' r'] lg']. cbn [g_st g_lg g_rs fst snd] in *. subst r' lg'.
-  dsplit; [|reflexivity | reflexivity]. apply R_visit_cond. apply R_child_exit; [exact HR | apply R_while_post; exact A].
+  intros H x x' HR. unfold visit_whileG. cbn [fixF current repaired]. pose proof (R_visit_cond c _ _ HR) as HRc.
+  destruct (H _ _ (R_child_enter KLoop _ _ HRc)) as [A [B C]].
+  destruct (g (child_enter KLoop (visit_cond c x))) as [[a r] lg]. destruct (g' (child_enter KLoop (visit_cond c x'))) as [[a' r'] lg']. cbn [g_st g_lg g_rs fst snd] in *. subst r' lg'.
+  dsplit; [|reflexivity | reflexivity]. apply R_child_exit; [exact HRc | apply R_while_post; exact A].
 Qed.
 Lemma cg1_do_while p c lo g g' : cg1 g g' -> cg1 (visit_do_whileG current p c lo g) (visit_do_whileG repaired p c lo g').
 Proof.
@@ -301,7 +316,8 @@ Proof.
   pose proof (R_dowhile_post current r c lo _ _ A) as A2. change (dowhile_post_r current r c lo a') with (dowhile_post_r repaired r c lo a') in A2.
   pose proof (R_child_exit KLoop lo _ _ _ _ HR A2) as A3.
   rewrite <- (R_end _ _ A2), <- (R_end _ _ HR), <- (R_end _ _ A3).
-  dsplit; [apply R_dowhile_tail; exact A3 | reflexivity | reflexivity].
+  dsplit; [|reflexivity | reflexivity].
+  apply R_dowhile_tail_cr. exact A3.
 Qed.
 Lemma cg1_for p c lo g g' : cg1 g g' -> cg1 (visit_forG current p c lo g) (visit_forG repaired p c lo g').
 Proof.
